@@ -283,3 +283,74 @@ func VerifC09_HTTPRequest() {
 	}
 	rt.Reach("httpreq-end")
 }
+
+// ---- Accept headers built from the media-type grammar: 1..3 entries of
+// type/subtype with optional parameters and optional white space ----
+
+type c09Media struct {
+	text     string
+	format   uint8 // named supported format (AUTO: none)
+	wildcard bool
+}
+
+func c09MediaMenu() []c09Media {
+	return []c09Media{
+		{"application/json", JSON, false},
+		{"application/cbor", CBOR, false},
+		{"application/msgpack", MsgPack, false},
+		{"application/yaml", YAML, false},
+		{"APPLICATION/JSON", JSON, false},
+		{"yml", YAML, false},
+		{"text/html", AUTO, false},
+		{"application/xhtml+xml", AUTO, false},
+		{"*/*", AUTO, true},
+		{"*", AUTO, true},
+		{"text/*", AUTO, true},
+	}
+}
+
+func VerifC09_AcceptGrammar() {
+	media := c09MediaMenu()
+	params := []string{"", ";q=0.8", "; q=0.5", ";profile=a/b", ";charset=utf-8;q=0.1"}
+	n := 1 + rt.Choice("entries", 2)
+	if rt.Thorough() {
+		n = 1 + rt.Choice("entries3", 3)
+	}
+	accept := ""
+	want := uint8(AUTO)
+	decided, sawWildcard := false, false
+	for i := 0; i < n; i++ {
+		tag := "e" + string(rune('0'+i))
+		m := media[rt.Choice(tag+".type", len(media))]
+		p := params[rt.Choice(tag+".param", len(params))]
+		if i > 0 {
+			accept += []string{",", ", "}[rt.Choice(tag+".sep", 2)]
+		}
+		accept += m.text + p
+		// reference: the first entry naming a supported format wins; otherwise
+		// any wildcard selects the default format
+		if !decided && m.format != AUTO {
+			want = m.format
+			decided = true
+		}
+		sawWildcard = sawWildcard || m.wildcard
+	}
+	if !decided && sawWildcard {
+		want = DefaultSerializationFormat
+	}
+	got := FormatFromAccept(accept)
+	rt.Observe("format", uint64(got))
+	rt.Assert(got == want, "acceptgrammar/format-follows-the-documented-rule")
+	// and the response side names an encoding the load side understands
+	if want != AUTO {
+		v := symValue()
+		data, mimeType, format, err := MimeDump(v, accept)
+		if err == nil {
+			rt.Assert(format == want, "acceptgrammar/dump-format")
+			got2 := FormatFromAccept(mimeType)
+			rt.Assert(got2 == want, "acceptgrammar/content-type-names-the-encoding")
+			_ = data
+		}
+	}
+	rt.Reach("acceptgrammar-end")
+}
